@@ -114,6 +114,10 @@ def run_impl(sj, c):
         r = A.matrix(T)
     elif op == 'make_matrix':
         r = sj.make_matrix(A, T)
+    elif op in ('warm_scale_spmat', 'warm_tr_spmat', 'warm_matsp', 'warm_neg_spmat'):
+        # the same object used a second time after a first product with a dense operand (whatever an object caches on first use must not leak into derived objects)
+        A @ M
+        r = {'warm_scale_spmat': lambda: (c.get('a', 3) * A) @ M, 'warm_tr_spmat': lambda: A.T @ M, 'warm_matsp': lambda: M @ A, 'warm_neg_spmat': lambda: (-A) @ M}[op]()
     elif op == 'pack':
         from sequence_jacobian.classes import JacobianDict
         r = JacobianDict({'o': {'i': A}}, ['o'], ['i'], T=T).pack(T)
@@ -262,6 +266,7 @@ def check_case(sj, c):
            'nonzero': lambda: dT, 'spmat': lambda: dT @ M, 'spvec': lambda: dT @ M, 'matsp': lambda: M @ dT,
            'vecsp': lambda: (M[:, 0] @ dT)[:, None], 'adddense': lambda: dT + M, 'radddense': lambda: M + dT,
            'subdense': lambda: dT - M, 'rsubdense': lambda: M - dT, 'matrix': lambda: dT, 'make_matrix': lambda: dT, 'pack': lambda: dT,
+           'warm_scale_spmat': lambda: c.get('a', 3) * (dT @ M), 'warm_tr_spmat': lambda: dA.T[:T, :T] @ M, 'warm_matsp': lambda: M @ dT, 'warm_neg_spmat': lambda: -(dT @ M),
            'diag': lambda: dense({(int(i), 0): float(x) for i, x in c['d']}, N)[:T, :T]}[op]()
     if gotd.shape != exp.shape or not np.allclose(gotd, exp, atol=1e-9, rtol=0):
         far = any(k[0] > T for k, _ in c['A'])
@@ -349,7 +354,7 @@ def oracle(ctx, hints, broken):
         M = rng.imat(T, T)
         for i in range(-T - 3, T + 4):
             for m in range(0, T + 2):
-                for op in ('matrix', 'make_matrix', 'pack', 'adddense', 'spmat', 'matsp'):
+                for op in ('matrix', 'make_matrix', 'pack', 'adddense', 'spmat', 'matsp', 'warm_scale_spmat', 'warm_tr_spmat', 'warm_matsp', 'warm_neg_spmat'):
                     c = dict(op=op, T=T, A=[[[i, m], 2]], M=M, S=T)
                     v = check_case(sj, c)
                     n += 1
@@ -368,7 +373,7 @@ def oracle(ctx, hints, broken):
 
 
 RULE = ('dense numpy reference on (T+K)x(T+K) windows, top-left TxT compared: exhaustive basis pairs, exhaustive single-element '
-        'dense routines for T<=5 (7) with |i|<=T+3, m<=T+1, IdentityMatrix forms, random multi-element cases')
+        'dense routines for T<=5 (7) with |i|<=T+3, m<=T+1 (incl. make_matrix, JacobianDict.pack, and products of scaled / negated / transposed objects taken after the object was first used in a product), IdentityMatrix forms, random multi-element cases')
 
 
 def replay(rp):
